@@ -46,19 +46,21 @@ def worker_env(extra=None):
 # The host environment is a dimension of the workload like the logging mode: every fourth worker runs in the
 # POSIX locale with UTF-8 mode off (the default text encoding of open() / read_text() / the file system is
 # ASCII - cron jobs, minimal containers), every fourth in a time zone with daylight saving (given as a POSIX
-# TZ rule, so that no zone database is needed).  stdin/stdout keep UTF-8 (PYTHONIOENCODING): what a terminal can
+# TZ rule, so that no zone database is needed), every fourth under python -bb.  stdin/stdout keep UTF-8 (PYTHONIOENCODING): what a terminal can
 # show is not the library's business.  VERIF_HOSTENV=plain|clocale|dst forces one environment for all workers.
 HOST_ENVS = {
     'plain': {},
     'clocale': {'LC_ALL': 'C', 'LANG': 'C', 'LANGUAGE': 'C', 'PYTHONUTF8': '0', 'PYTHONCOERCECLOCALE': '0',
                 'PYTHONIOENCODING': 'utf-8'},
     'dst': {'TZ': 'GMT0BST,M3.5.0/1,M10.5.0/2'},
+    # python -bb: comparing or formatting bytes as text is an error (a host that is strict about str / bytes)
+    'bb': {'VERIF_PYFLAGS': '-bb'},
 }
 
 
 def host_env(wi):
     forced = os.environ.get('VERIF_HOSTENV')
-    name = forced if forced in HOST_ENVS else ('plain', 'plain', 'clocale', 'dst')[wi % 4]
+    name = forced if forced in HOST_ENVS else ('plain', 'bb', 'clocale', 'dst')[wi % 4]
     return dict(HOST_ENVS[name], VERIF_HOSTENV_NAME=name)
 
 
@@ -72,11 +74,12 @@ def spawn_workers(prop, tier, seed, nw, timeout, replay=None, pyflags=(), env_ex
     procs = []
     for wi in range(nw):
         out = os.path.join(tmpdir, 'w%d.json' % wi)
-        cmd = [PY, '-B'] + list(pyflags) + ['-m', 'mon.worker', prop, tier, str(seed), str(wi), str(nw), out]
+        henv = host_env(wi)
+        cmd = [PY, '-B'] + list(pyflags) + henv.pop('VERIF_PYFLAGS', '').split() + ['-m', 'mon.worker', prop, tier, str(seed), str(wi), str(nw), out]
         if replay:
             cmd.append(replay)
         errf = open(os.path.join(tmpdir, 'w%d.err' % wi), 'w')
-        p = subprocess.Popen(cmd, cwd=HERE, env=worker_env(dict(host_env(wi), **(env_extra or {}))), stdout=errf, stderr=errf)
+        p = subprocess.Popen(cmd, cwd=HERE, env=worker_env(dict(henv, **(env_extra or {}))), stdout=errf, stderr=errf)
         procs.append((p, out, errf))
     results, problems = [], []
     deadline = time.time() + timeout
